@@ -304,7 +304,7 @@ func (engC16) ID() string    { return "C16" }
 func (engC16) Level() string { return "exploration" }
 func (engC16) Runs(tier string) int {
 	if tier == "thorough" {
-		return 1500000
+		return 1000000 // (what 16 workers finish within the 45-minute budget, with room to spare)
 	}
 	return 5000
 }
